@@ -233,7 +233,9 @@ func msgsOnly(pk []string) []string {
 // or forced: the close is carried out -- the client's next poll is answered with the close
 // packet (or released), the session closes exactly once with 'forced close', nothing hangs.
 func VerifH_C12_close_from_send_callback() {
-	verif.RunTimed(func() {
+	// (not under virtual time: a writer goroutine stuck on a lock would stall the virtual clock
+	// natively instead of failing the assertions below; no timer matters within this script)
+	func() {
 		c := newPollClient(config.DefaultServerOptions())
 		c.request("GET", "")
 		if c.sock == nil {
@@ -262,7 +264,7 @@ func VerifH_C12_close_from_send_callback() {
 			verif.Assert(ex.answered() && ex.w.writeCalls == 1, "every request of the session is answered exactly once")
 		}
 		verif.Assert(c.ps.Clients().Len() == 0 && c.ps.ClientsCount() == 0, "client table empty")
-	})
+	}()
 }
 
 // VerifH_C03_slow_callbacks_no_close_cause: histories without any close cause on a real
